@@ -277,6 +277,21 @@ def main():
                 oracle_ties.append({"request": "<static check of oracle %s>" % oname, "impl": res["tie_broken"], "model": "pure, silent"})
             for f in res["failures"]:
                 failures.append(dict(f, oracle=oname))
+        # the build without debug assertions answered a sample of the same requests: a different answer is a broken tie, and
+        # the oracles are then repeated on that build to look for a failing input there
+        corr_bad += getattr(ctx, "build_diffs", [])
+        if any(d.get("build") for d in corr_bad):
+            saved = t2nlib.HARNESS_BIN
+            t2nlib.HARNESS_BIN = t2nlib.HARNESS_PLAIN
+            try:
+                for oname in cfg["oracles"]:
+                    res = props.run_oracle(ctx, oname, focus=corr_bad)
+                    for f in res["failures"]:
+                        failures.append(dict(f, oracle=oname, build="no-debug-assertions"))
+            except Exception as e:      # the search is best effort; the broken tie is reported in any case
+                print("search on the build without debug assertions failed: %s" % e)
+            finally:
+                t2nlib.HARNESS_BIN = saved
 
         # 4. verdict
         known = load_known()
@@ -328,6 +343,7 @@ def main():
                 "theorems": proof["theorems"],
                 "traces_validated_against_impl": corr_total,
                 "char_class_laws_on_rust_tables": law_stats,
+                "traces_also_validated_on_build_without_debug_assertions": getattr(ctx, "plain_requests", 0),
                 "leanchecker": proof.get("leanchecker_rc", "not run (quick tier)"),
                 "evaluations": evaluations,
                 "distinct_nontrivial": sum(v["distinct_answers"] for v in stream_stats.values()) +
